@@ -262,7 +262,7 @@ fn account(st: &mut Stats, plan: &RunPlan, out: &Outcome, digests: &mut HashSet<
             }
         }
     }
-    if plan.policy == PolicyKind::Pct && nt >= 2 {
+    if (plan.policy == PolicyKind::Pct || plan.policy == PolicyKind::Stall) && nt >= 2 {
         st.stall_policy_runs += 1;
     }
     st.drop_ops += plan
@@ -694,6 +694,7 @@ fn warm_up(order: u64) {
             Kind::Bool => "!p&&true",
             Kind::Sim | Kind::Sim2 => "sq(x)**2<=3*TEN",
             Kind::Sim3 => "tw(x)&&1<<2",
+            Kind::Gen(_) => "x+1",
         };
         for form in [Form::Flat, Form::Deep] {
             let _ = std::panic::catch_unwind(|| {
